@@ -4,7 +4,7 @@
    (Model/Token.v token_is_jwt / make_token, used by every grant handler of the flow model), and the
    secret atoms a DCR response or an error body may carry (Model/Disclosure.v).  That real bytes carry
    nothing else is the job of the scanner of suite c09. *)
-From Verif Require Import Base Scope Types Prog Pop Token Authorize System Config Artifacts Disclosure C09Proofs C09History.
+From Verif Require Import Base Scope Types Prog Pop Token Authorize System Config Artifacts ArtifactsX Disclosure C08Proofs C09Proofs C09History C08XProofs.
 Local Open Scope N_scope.
 
 (* PublicJWKS, for every key set and every key type (RSA, EC of any curve, symmetric; given with or
@@ -57,3 +57,41 @@ Print Assumptions registration_token_only_when_rotating.
 Theorem error_bodies_carry_no_secret : forall e, body_atoms (BError e) = [].
 Proof. exact error_bodies_carry_nothing. Qed.
 Print Assumptions error_bodies_carry_no_secret.
+
+(* ---- widened inputs (Model/ArtifactsX.v): key handling options, pairwise subjects of every origin ---- *)
+
+(* PublicJWKS under every way of handling keys - signing delegated to a SignerFunc or not, decryption
+   delegated to a DecrypterFunc or not, any path prefix: every published key is the public projection
+   of a key of the set (sig or enc, used by the provider itself or not) and carries no private member. *)
+Theorem jwks_public_only_any_key_handling : forall cfg kh k,
+  In k (public_jwks_x cfg kh) ->
+  (exists k0, In k0 (ac_keys cfg) /\ k = jwk_public k0) /\ k_priv k = false /\ (k_kty k = KtyOct -> k_pair k = 0).
+Proof. exact public_jwks_x_spec. Qed.
+Print Assumptions jwks_public_only_any_key_handling.
+
+(* A client whose subject is pairwise for ANY reason - subject_type = pairwise, or no subject_type
+   under a provider whose default subject type is pairwise (the sector identifier never decides
+   it) - gets an opaque access token from every grant other than client_credentials, whatever the
+   token options ask for. *)
+Theorem pairwise_never_jwt_any_origin : forall cfg c fo n now g,
+  pw_origin_of cfg c <> PwNot -> gi_type g <> GClientCredentials ->
+  to_jwt (token_options cfg (gi_type g) c fo) = false /\
+  forall t, make cfg n now g c fo = Some t -> exists h, tk_value t = TokOpaque h.
+Proof. exact pairwise_any_origin_opaque. Qed.
+Print Assumptions pairwise_never_jwt_any_origin.
+
+Theorem pairwise_by_default_never_jwt : forall cfg c fo n now g,
+  acl_sub_type c = None -> ac_default_pairwise cfg = true -> gi_type g <> GClientCredentials ->
+  to_jwt (token_options cfg (gi_type g) c fo) = false /\
+  forall t, make cfg n now g c fo = Some t -> exists h, tk_value t = TokOpaque h.
+Proof. exact pairwise_by_default_opaque. Qed.
+Print Assumptions pairwise_by_default_never_jwt.
+
+(* the flow model's c_pairwise is the EFFECTIVE subject type: for a registration of any subject_type
+   whose effective type it is, the flow model's switch is the artifact model's shouldSwitchToOpaque
+   (so pairwise_never_jwt_all_histories covers clients that are pairwise by default as well) *)
+Theorem token_format_switch_agrees_any_origin : forall acf cfg c st gt,
+  c_pairwise c = should_generate_pairwise acf (aclient_of_reg c st) ->
+  token_is_jwt c gt = to_jwt (token_options acf gt (aclient_of_reg c st) (harness_tokopts cfg c)).
+Proof. exact token_is_jwt_agrees_reg. Qed.
+Print Assumptions token_format_switch_agrees_any_origin.
